@@ -12,6 +12,11 @@
 //	    messageProcessor -> readRemoteMessage -> protocol.DecodeMessage, started by `go` at
 //	    reader.go:94) has no recover, so a panic in DecodeMessage kills the node.
 //
+// Thorough additionally builds this driver with `go build -asan` and pushes the first 300 000 mutated inputs and
+// 3 000 round trips through it (C16_ASAN=0 skips, C16_ASAN=force also in quick; C16_OVERLAY=<file> is passed as
+// -overlay to that build, for trying candidate repairs). libasan's interceptors see the prebuilt BLS archive only
+// at malloc/free/str*/mem* calls; such reports are non-fatal (halt_on_error=0) and become kind "asan-report".
+//
 // Everything that touches the code under test runs in child processes (this binary with -child):
 // a cgo abort or Go fatal error cannot be recovered. The child writes (index, phase, input) to a
 // progress file before each call; the parent polls it (hang watchdog, RSS watchdog) and, if the
@@ -742,7 +747,7 @@ func (p *parent) spawnLimit(mode string, from, to int, exe string, hangAfter tim
 	}
 	// halt_on_error=0: errors found by libasan's interceptors (the prebuilt archives are only visible through them)
 	// are reported once per call site and the child goes on; errors in instrumented Go/cgo code stay fatal.
-	cmd.Env = append(os.Environ(), "GOMAXPROCS=2", "GOTRACEBACK=all", "ASAN_OPTIONS=detect_leaks=0:halt_on_error=0:abort_on_error=0:exitcode=66:symbolize=1")
+	cmd.Env = append(os.Environ(), "GOMAXPROCS=2", "GOTRACEBACK=crash", "ASAN_OPTIONS=detect_leaks=0:halt_on_error=0:abort_on_error=0:exitcode=66:symbolize=1")
 	cmd.Stdout, cmd.Stderr = outF, outF
 	cmd.SysProcAttr = &syscall.SysProcAttr{Setpgid: true}
 	if err := cmd.Start(); err != nil {
@@ -1232,7 +1237,16 @@ func main() {
 
 	// thorough: the same child built with -asan over a slice of the same inputs
 	asanWanted := os.Getenv("C16_ASAN")
-	if run.Only < 0 && (run.Thorough() && asanWanted != "0" || asanWanted == "force") {
+	replayAsan := false
+	if run.ReplayFile != "" { // a recorded asan report is only visible to the asan build: replay it there
+		if b, err := os.ReadFile(run.ReplayFile); err == nil {
+			var rp struct {
+				Kind string `json:"kind"`
+			}
+			replayAsan = json.Unmarshal(b, &rp) == nil && rp.Kind == "asan-report"
+		}
+	}
+	if replayAsan || run.Only < 0 && (run.Thorough() && asanWanted != "0" || asanWanted == "force") {
 		t0 := time.Now()
 		asanExe, msg := buildAsan(run)
 		if asanExe == "" {
@@ -1250,6 +1264,9 @@ func main() {
 				aj = append(aj, job{"mut", a, min(a+aBatch, nA), nRT})
 			}
 			aj = append(aj, job{"rt", 0, nAR, 0})
+			if replayAsan {
+				aj = jobs
+			}
 			vh.Parallel(len(aj), workers, func(j int) {
 				jb := aj[j]
 				pa.runRange(jb.mode, jb.from, jb.to, jb.base, asanExe, false, 0)
